@@ -4,7 +4,8 @@ CFG = dict(
     rule="byte strings: valid encodings of generated profiles, structure-aware mutations (bit flips, truncation, +-1, insert/"
          "delete, duplicated slices), every single-byte truncation of small encodings (exhaustive), wire-format field soups, "
          "concatenations, gzip wrappers (valid, truncated, corrupted), the repository's legacy test files and mutations of "
-         "them -> profile.ParseData outcome {err | ok(dump) + Write/Copy/Compact/Merge/all text reports} ; the gzip reader's "
+         "them, legacy documents with hostile memory maps and extreme numbers, binary CPU profiles with extreme words, "
+         "labels the decoder drops -> profile.ParseData outcome {err | ok(dump) + Write/Copy/Compact/Merge/all text reports} ; the gzip reader's "
          "and the legacy chain's answers are shipped as oracle values; distinct = sha256 of input; non-trivial = length > 8",
     spec_what="ParseData panicked / was slow, or returned a profile violating the validity contract, or a follow-up "
               "operation (Write, Copy, Compact, Merge, a text report) crashed on a returned profile",
@@ -14,8 +15,11 @@ CFG = dict(
                  "CheckValid's pointer-identity tests are vacuous on id-resolved profiles (see M_Valid.v)"],
     level_text="Theorems for ALL byte strings: the protobuf parser never panics and never runs out of fuel "
                "(parse_total_proto), ParseData returns only CheckValid-gated profiles for any gzip/legacy oracle, CheckValid + "
-               "reference resolution imply the validity contract (parse_returns_valid); the legacy text parsers and the "
-               "'can always be written/copied/compacted/reported' clause are explored on every generated input.",
+               "reference resolution imply the validity contract (parse_returns_valid); what the protobuf parser returns is valid in "
+               "the codec's full sense - every decoded number within its Go type (decodeVarint < 2^64), labels regrouped in key order, "
+               "unit lists well formed - so it can be written (parsed_profile_can_be_written_partial) and copied, the copy being its "
+               "normal form (parsed_profile_is_valid, parsed_profile_can_be_copied: the bridge to C01's round-trip theorems); the "
+               "legacy text parsers and the 'compacted/reported' part of the clause are explored on every generated input.",
     level_note="proof for the protobuf path and the validity gate; partial (exploration) for panics inside the legacy text "
                "parsers and for the follow-up operations on returned profiles",
 )
